@@ -332,10 +332,17 @@ def typeOf : Val → String × Bytes
   | .obj (.str _) => ("String", [])
   | .obj _ => ("", [])
 
+/-- `doRead` (1430e5c): the start of the next located object behind `start`, the scanner's
+    `findLimit` (`objStarts` holds the starts of ALL located objects, sorted) -/
+def nextStart (secs : List Section) (start : Nat) : Option Nat :=
+  match ((secs.flatMap (·.objects)).map (·.start)).filter (fun x => x > start) with
+  | [] => none
+  | x :: xs => some (xs.foldl min x)
+
 /-- `checkObjects` for one object (`doRead` with a fresh `makeSafeGetInt`) -/
 def checkObject (file : Bytes) (secs : List Section) (fo : FileObject) : Except Err CheckedObject :=
   let getInt (o : Obj) : Except Err Int := (safeGetInt file secs 12 [] o).2
-  match readIndirect file fo.start getInt false with
+  match readIndirect file fo.start getInt false (nextStart secs fo.start) with
   | .error .malformed => .ok { num := fo.num, gen := fo.gen, start := fo.start, endPos := 0, broken := true, type := "", subtype := [] }
   | .error .eof => .ok { num := fo.num, gen := fo.gen, start := fo.start, endPos := 0, broken := true, type := "", subtype := [] }
   | .error e => .error e
